@@ -53,6 +53,7 @@ package mutable
 //@ 	verifspec.Shared(&r.value)
 //@ 	r.Get(k)
 //@ 	r.Size()
+//@ 	r.Iterator()
 //@ 	return !verifspec.Holding(&r.lock)
 //@ }
 //@ func cowSame[K, V any](o, n any) bool {
